@@ -52,7 +52,7 @@ def obligations(tier):
             # until the compliance run ends) and around new data arriving meanwhile
             E = fsm.EVENTS
             nfree = 3 if tier == 'quick' else 4
-            for tag, pref in (('api', ['SUBMIT-API todo']), ('api-newdata', ['SUBMIT-API crew', 'TICK new-data']), ('newdata-submit', ['TICK new-data', 'SUBMIT todo'])):
+            for tag, pref in (('api', ['SUBMIT-API todo']), ('api-newdata', ['SUBMIT-API crew', 'TICK new-data']), ('newdata-submit', ['TICK new-data', 'SUBMIT todo']), ('api-late-failure', ['SUBMIT-API todo late-git-failure', 'SUBMIT-API crew'])):
                 pi = [E.index(x) for x in pref]
                 fr = [f'f{i}' for i in range(nfree + (1 if len(pref) == 1 else 0))]
                 out.append(ob.make(f'{start}-directed-{tag}', start, f'vp.harness.{PROPERTY.lower()}:body', ', '.join(f'{v}: int' for v in fr), [' and '.join(f'0 <= {v} < {n}' for v in fr)],
